@@ -144,8 +144,24 @@ NavCuForest(p, n, f) ==
     [units |-> [j \in 1..Len(F.units) |-> [F.units[j] EXCEPT !.kind = "cu"]],
      die |-> [d \in 1..n |-> IF F.die[d].tag = "pu" THEN [F.die[d] EXCEPT !.tag = "cu"] ELSE F.die[d]]]
 
+\* "navcyc": imports that lead back -- a unit importing itself, two units importing each other (malformed, but
+\* nothing may hang on it)
+CycImpChoices(p, n) ==
+    LET roots == RootsOf(p, n)
+        leaves == {d \in 2..n : p[d] # 0 /\ Len(KidsOf(p, n, d)) = 0}
+        RECURSIVE RootOfD(_)
+        RootOfD(d) == IF p[d] = 0 THEN d ELSE RootOfD(p[d])
+    IN {f \in [leaves -> {0} \cup RangeOf(roots)] :
+           /\ Cardinality({d \in leaves : f[d] # 0}) \in 1..3
+           /\ \E d \in leaves : f[d] # 0 /\ f[d] <= RootOfD(d)}          \* some import leads back
+NavCycForest(p, n, f) ==
+    LET F == NavForest(p, n, f) IN
+    \* the first unit stays a compile unit also when something imports it
+    [F EXCEPT !.die[1].tag = "cu"]
+
 ForestSet ==
-    CASE Family = "navcu" -> UNION {{NavCuForest(p, N, f) : f \in ImpChoices(p, N)} : p \in {q \in ParVecs(N) : Cardinality(RangeOf(RootsOf(q, N))) \in 2..3}}
+    CASE Family = "navcyc" -> UNION {{NavCycForest(p, N, f) : f \in CycImpChoices(p, N)} : p \in {q \in ParVecs(N) : Cardinality(RangeOf(RootsOf(q, N))) \in 1..2}}
+      [] Family = "navcu" -> UNION {{NavCuForest(p, N, f) : f \in ImpChoices(p, N)} : p \in {q \in ParVecs(N) : Cardinality(RangeOf(RootsOf(q, N))) \in 2..3}}
       [] Family = "navchain" -> {NavForest(NavChainP(N), N, NavChainF(N))}
       [] Family = "chain" -> {AttrForest(N, ChainG(N))}
       [] Family = "cyc" -> {AttrForest(N, g) : g \in CycRefChoices(N)}
